@@ -285,9 +285,16 @@ func checkC05(ops []bop, variant int, level c05Level) error {
 	for _, b := range blocks {
 		other.PutUint32(commit.Put, b<<14, b)
 	}
+	// a buffer that has operations in the FIRST block only: for every other commit it is an
+	// update buffer without a section in the commit's block, sitting between two that have one
+	sparse := commit.NewBuffer(8)
+	sparse.Reset("sparse")
+	if len(blocks) > 0 {
+		sparse.PutUint16(commit.Put, blocks[0]<<14+1, 7)
+	}
 	commits := make([]commit.Commit, 0, len(blocks))
 	for i, b := range blocks {
-		cm := commit.Commit{ID: uint64(1000 + i), Chunk: commit.Chunk(b), Updates: []*commit.Buffer{buf, other}}
+		cm := commit.Commit{ID: uint64(1000 + i), Chunk: commit.Chunk(b), Updates: []*commit.Buffer{buf, sparse, other}}
 		commits = append(commits, cm)
 		var w bytes.Buffer
 		if _, err := cm.WriteTo(&w); err != nil {
@@ -309,8 +316,8 @@ func checkC05(ops []bop, variant int, level c05Level) error {
 		if cl.Chunk != cm.Chunk {
 			return fmt.Errorf("Commit.Clone changed the block: %d != %d", cl.Chunk, cm.Chunk)
 		}
-		if len(cl.Updates) != 2 {
-			return fmt.Errorf("Commit.Clone has %d buffers, want 2", len(cl.Updates))
+		if len(cl.Updates) != 3 {
+			return fmt.Errorf("Commit.Clone has %d buffers, want 3", len(cl.Updates))
 		}
 		r := commit.NewReader()
 		if err := sameOps(readBlock(r, cl.Updates[0], b), wantBlock(ops, b)); err != nil {
@@ -414,19 +421,29 @@ func checkCommitEquals(back *commit.Commit, id uint64, block uint32, ops []bop) 
 	if back.ID != id || uint32(back.Chunk) != block {
 		return fmt.Errorf("decoded commit has id=%d block=%d, want id=%d block=%d", back.ID, back.Chunk, id, block)
 	}
-	if len(back.Updates) != 2 {
-		return fmt.Errorf("decoded commit has %d buffers, want 2", len(back.Updates))
+	if len(back.Updates) != 3 {
+		return fmt.Errorf("decoded commit has %d buffers, want 3", len(back.Updates))
 	}
-	if back.Updates[0].Column != "col" || back.Updates[1].Column != "other" {
-		return fmt.Errorf("decoded commit column names %q,%q", back.Updates[0].Column, back.Updates[1].Column)
+	if back.Updates[0].Column != "col" || back.Updates[1].Column != "sparse" || back.Updates[2].Column != "other" {
+		return fmt.Errorf("decoded commit column names %q,%q,%q", back.Updates[0].Column, back.Updates[1].Column, back.Updates[2].Column)
 	}
 	r := commit.NewReader()
 	if err := sameOps(readBlock(r, back.Updates[0], block), wantBlock(ops, block)); err != nil {
 		return fmt.Errorf("block %d: %v", block, err)
 	}
-	oth := readBlock(r, back.Updates[1], block)
+	oth := readBlock(r, back.Updates[2], block)
 	if len(oth) != 1 || oth[0].Off != int32(block<<14) || oth[0].Typ != commit.Put {
-		return fmt.Errorf("block %d: companion buffer decoded as %v", block, oth)
+		return fmt.Errorf("block %d: companion buffer (behind a buffer that may have no section in this block) decoded as %v", block, oth)
+	}
+	first := uint32(0x7fffffff)
+	for _, b := range blocksOf(ops) {
+		if b < first {
+			first = b
+		}
+	}
+	sp := readBlock(r, back.Updates[1], block)
+	if (block == first) != (len(sp) == 1) || (len(sp) == 1 && sp[0].Off != int32(first<<14+1)) {
+		return fmt.Errorf("block %d: the buffer that only has an operation in block %d decoded as %v", block, first, sp)
 	}
 	// the decoded commit holds nothing of other blocks
 	for _, b := range blocksOf(ops) {
